@@ -814,3 +814,62 @@ impl NamedCal {
 pub fn get_calendar_by_name_py(name: &str) -> PyResult<Cal> {
     get_calendar_by_name(name)
 }
+
+// verification hooks: Rust-callable wrappers of the Python-facing calendar methods above
+#[cfg(feature = "verif")]
+macro_rules! verif_py_cal {
+    ($name: ident) => {
+        impl $name {
+            pub fn verif_py_holidays(&self) -> Vec<NaiveDateTime> {
+                self.holidays().unwrap()
+            }
+            pub fn verif_py_week_mask(&self) -> HashSet<u8> {
+                self.week_mask().unwrap()
+            }
+            pub fn verif_py_is_bus_day(&self, date: NaiveDateTime) -> bool {
+                self.is_bus_day_py(date)
+            }
+            pub fn verif_py_is_non_bus_day(&self, date: NaiveDateTime) -> bool {
+                self.is_non_bus_day_py(date)
+            }
+            pub fn verif_py_is_settlement(&self, date: NaiveDateTime) -> bool {
+                self.is_settlement_py(date)
+            }
+            pub fn verif_py_add_days(&self, date: NaiveDateTime, days: i8, modifier: Modifier, settlement: bool) -> Result<NaiveDateTime, ()> {
+                self.add_days_py(date, days, modifier, settlement).map_err(|_| ())
+            }
+            pub fn verif_py_add_bus_days(&self, date: NaiveDateTime, days: i8, settlement: bool) -> Result<NaiveDateTime, ()> {
+                self.add_bus_days_py(date, days, settlement).map_err(|_| ())
+            }
+            pub fn verif_py_add_months(&self, date: NaiveDateTime, months: i32, modifier: Modifier, roll: RollDay, settlement: bool) -> Result<NaiveDateTime, ()> {
+                self.add_months_py(date, months, modifier, roll, settlement).map_err(|_| ())
+            }
+            pub fn verif_py_roll(&self, date: NaiveDateTime, modifier: Modifier, settlement: bool) -> Result<NaiveDateTime, ()> {
+                self.roll_py(date, modifier, settlement).map_err(|_| ())
+            }
+            pub fn verif_py_lag(&self, date: NaiveDateTime, days: i8, settlement: bool) -> NaiveDateTime {
+                self.lag_py(date, days, settlement)
+            }
+            pub fn verif_py_bus_date_range(&self, start: NaiveDateTime, end: NaiveDateTime) -> Result<Vec<NaiveDateTime>, ()> {
+                self.bus_date_range_py(start, end).map_err(|_| ())
+            }
+            pub fn verif_py_cal_date_range(&self, start: NaiveDateTime, end: NaiveDateTime) -> Result<Vec<NaiveDateTime>, ()> {
+                self.cal_date_range_py(start, end).map_err(|_| ())
+            }
+            pub fn verif_py_eq(&self, other: CalType) -> bool {
+                self.__eq__(other)
+            }
+        }
+    };
+}
+#[cfg(feature = "verif")]
+verif_py_cal!(Cal);
+#[cfg(feature = "verif")]
+verif_py_cal!(UnionCal);
+#[cfg(feature = "verif")]
+verif_py_cal!(NamedCal);
+
+#[cfg(feature = "verif")]
+pub fn verif_py_get_calendar_by_name(name: &str) -> Result<Cal, ()> {
+    get_calendar_by_name_py(name).map_err(|_| ())
+}
